@@ -56,23 +56,18 @@ Qed.
 Lemma symsize_small n : 0 <= n -> n * (n + 1) < W32 -> symsize n = 4 * (n * (n + 1)).
 Proof.
   intros H0 H. unfold symsize. rewrite W32_val in *. rewrite W64_val.
-  assert (n < 4294967296 - 1) by nia.
-  replace ((n + 1) mod 4294967296) with (n + 1) by lia.
   assert (0 <= n * (n + 1)) by nia.
   remember (n * (n + 1)) as p. lia.
 Qed.
 
 Lemma symsize_mod8 ui : 0 <= ui < W32 -> symsize ui mod 8 = 0.
 Proof.
-  intros H. unfold symsize. rewrite W32_val in *. rewrite W64_val.
-  assert (E : exists q, ui * ((ui + 1) mod 4294967296) = 2 * q).
-  { destruct (Z.eq_dec ui 4294967295) as [->|Hn].
-    - exists 0. reflexivity.
-    - replace ((ui + 1) mod 4294967296) with (ui + 1) by lia.
-      destruct (Z.even ui) eqn:Ev.
-      + apply Z.even_spec in Ev. destruct Ev as [h ->]. exists (h * (2 * h + 1)). ring.
-      + assert (Od : Z.odd ui = true) by (rewrite <- Z.negb_even, Ev; reflexivity).
-        apply Z.odd_spec in Od. destruct Od as [h ->]. exists ((2 * h + 1) * (h + 1)). ring. }
+  intros H. unfold symsize. rewrite W64_val.
+  assert (E : exists q, ui * (ui + 1) = 2 * q).
+  { destruct (Z.even ui) eqn:Ev.
+    + apply Z.even_spec in Ev. destruct Ev as [h ->]. exists (h * (2 * h + 1)). ring.
+    + assert (Od : Z.odd ui = true) by (rewrite <- Z.negb_even, Ev; reflexivity).
+      apply Z.odd_spec in Od. destruct Od as [h ->]. exists ((2 * h + 1) * (h + 1)). ring. }
   destruct E as [q ->]. remember (2 * q * 8) as x.
   assert (x = 16 * q) by lia. clear Heqx. subst x. lia.
 Qed.
@@ -285,3 +280,120 @@ Proof.
     destruct ((16 * Z.of_nat (length es)) mod W64 =? (nl * nc * 8) mod W64) eqn:E; [right; lia|].
     destruct k; cbn -[Z.mul Z.div Z.modulo Z.leb Z.to_nat Z.add Z.of_nat]; intros H; try discriminate; auto.
 Qed.
+
+(* ---- C19: what an interrupted save leaves behind is refused ---- *)
+Lemma rd32_short l : (length l < 4)%nat -> rd32 l = None.
+Proof. destruct l as [|a [|b [|c [|d t]]]]; cbn [length]; intros H; try reflexivity; lia. Qed.
+
+Lemma rd32_firstn m n r : 0 <= n < W32 -> (4 <= m)%nat -> rd32 (firstn m (u32le n ++ r)) = Some (n, firstn (m - 4) r).
+Proof.
+  intros Hn Hm. destruct m as [|[|[|[|m]]]]; try lia.
+  replace (S (S (S (S m))) - 4)%nat with m by lia.
+  change (firstn (S (S (S (S m)))) (u32le n ++ r)) with (u32le n ++ firstn m r).
+  apply rd32_u32le; assumption.
+Qed.
+
+Lemma decode_ok_inv k bs o :
+  decode_as k bs = Ok o ->
+  exists ui r1, rd32 bs = Some (ui, r1) /\
+    let size := Z.of_nat (length bs) - 4 in
+    match k with
+    | KVec => size = ui * 8
+    | KSym => size = symsize ui
+    | KFull => exists uj r2, rd32 r1 = Some (uj, r2) /\ (size - 4) mod W64 = (ui * uj * 8) mod W64
+    | KSparse => True
+    end.
+Proof.
+  unfold decode_as, info. destruct (rd32 bs) as [[ui r1]|] eqn:E1; [|discriminate].
+  intros H. exists ui, r1. split; [reflexivity|]. cbv zeta.
+  destruct (Z.eqb_spec (Z.of_nat (length bs) - 4) (ui * 8)) as [Ev|Ev].
+  - destruct k; cbn in H; try discriminate; auto.
+  - destruct (Z.eqb_spec (Z.of_nat (length bs) - 4) (symsize ui)) as [Es|Es].
+    + destruct k; cbn in H; try discriminate; auto.
+    + destruct (rd32 r1) as [[uj r2]|] eqn:E2; [|discriminate].
+      destruct (Z.eqb_spec ((Z.of_nat (length bs) - 4 - 4) mod W64) ((ui * uj * 8) mod W64)) as [Ef|Ef];
+        destruct k; cbn in H; try discriminate; eauto.
+Qed.
+
+Theorem bin_strict_prefix_rejected o m :
+  wf o -> kind_of o <> KSparse -> (m < length (encode o))%nat ->
+  exists e, decode_as (kind_of o) (firstn m (encode o)) = Err e.
+Proof.
+  intros W NS Hm.
+  destruct (decode_as (kind_of o) (firstn m (encode o))) as [o'|e] eqn:D; [exfalso|eauto].
+  apply decode_ok_inv in D. destruct D as (ui & r1 & E1 & P).
+  assert (Hlen : length (firstn m (encode o)) = m) by (apply firstn_length_le; lia).
+  rewrite Hlen in P. cbv zeta in P.
+  assert (HL := encode_length o).
+  destruct (Nat.lt_ge_cases m 4) as [Hs|Hs].
+  { rewrite rd32_short in E1 by lia. discriminate. }
+  destruct o as [vs|nl nc vs|n vs|nl nc es]; cbn [kind_of wf] in *; try congruence.
+  - destruct W as [Hn Hw]. cbn [encode] in *. rewrite rd32_firstn in E1 by lia. inversion E1; subst ui r1. lia.
+  - destruct W as (Hl & Hc & Hn & Ha & Hw). cbn [encode] in *. rewrite rd32_firstn in E1 by lia. inversion E1; subst ui r1.
+    destruct P as (uj & r2 & E2 & P).
+    destruct (Nat.lt_ge_cases (m - 4) 4) as [Hs2|Hs2].
+    { rewrite rd32_short in E2; [discriminate|]. rewrite firstn_length. lia. }
+    change (rd32 (firstn (m - 4) (u32le nc ++ flat_map u64le vs)) = Some (uj, r2)) in E2.
+    rewrite rd32_firstn in E2 by lia. inversion E2; subst uj r2.
+    rewrite W64_val, ALLOC_val in *. remember (nl * nc) as p. lia.
+  - destruct W as (H0 & Hw32 & Hn & Hw). cbn [encode] in *.
+    assert (n < W32) by (rewrite W32_val in *; nia).
+    rewrite rd32_firstn in E1 by lia. inversion E1; subst ui r1.
+    rewrite symsize_small in P by lia.
+    assert (He := sym_n_even n H0). remember (n * (n + 1)) as p. lia.
+Qed.
+
+(* the sparse format stores no entry count: a file that ends inside an entry (or inside the header) is refused *)
+Lemma rd32_some_length l x r : rd32 l = Some (x, r) -> length l = (4 + length r)%nat.
+Proof. destruct l as [|a [|b [|c [|d t]]]]; cbn; intros H; try discriminate. inversion H; subst. reflexivity. Qed.
+
+Lemma rd_entry_cases bs :
+  match rd_entry bs with
+  | EEnd => bs = []
+  | EShort => True
+  | EEntry i j v r => (length bs = 16 + length r)%nat
+  end.
+Proof.
+  unfold rd_entry. destruct bs as [|b0 bs]; [reflexivity|]. cbn [is_nil].
+  destruct (rd32 (b0 :: bs)) as [[i r1]|] eqn:E1; [|exact I].
+  destruct (rd32 r1) as [[j r2]|] eqn:E2; [|exact I].
+  unfold rd64. destruct (rd32 r2) as [[lo r3]|] eqn:E3; [|exact I].
+  destruct (rd32 r3) as [[hi r4]|] eqn:E4; [|exact I].
+  apply rd32_some_length in E1, E2, E3, E4. lia.
+Qed.
+
+Lemma rd_entries_partial fuel nl nc : forall bs acc es,
+  rd_entries fuel nl nc bs acc = Ok es -> (Z.of_nat (length bs)) mod 16 = 0.
+Proof.
+  induction fuel as [|fuel IH]; intros bs acc es H; cbn [rd_entries] in H.
+  - destruct bs; cbn in H; [reflexivity|discriminate].
+  - assert (C := rd_entry_cases bs). destruct (rd_entry bs) as [| |i j v r] eqn:E.
+    + subst bs. reflexivity.
+    + discriminate.
+    + destruct ((i <? nl) && (j <? nc)); [|discriminate].
+      apply IH in H. rewrite C. rewrite Nat2Z.inj_add. change (Z.of_nat 16) with 16. lia.
+Qed.
+
+Theorem bin_sparse_partial_entry_rejected bs :
+  (Z.of_nat (length bs) < 8 \/ (Z.of_nat (length bs) - 8) mod 16 <> 0) ->
+  forall o, decode_as KSparse bs <> Ok o.
+Proof.
+  intros Hlen o D. unfold decode_as in D.
+  destruct (info bs) as [[li rest]|e] eqn:I; [|discriminate].
+  destruct (negb (storage_eqb (kind_storage KSparse) (i_st li))) eqn:S1; [discriminate|].
+  destruct (negb (kind_dim KSparse =? i_dim li)) eqn:S2; [discriminate|].
+  destruct (rd_entries (length rest) (i_nl li) (i_nc li) rest []) as [es|e] eqn:R; [|discriminate].
+  apply rd_entries_partial in R.
+  (* a sparse verdict of info means both header words were read: rest = bs minus 8 bytes *)
+  unfold info in I. destruct (rd32 bs) as [[ui r1]|] eqn:E1; [|discriminate].
+  destruct (Z.of_nat (length bs) - 4 =? ui * 8); [inversion I; subst; cbn in S1; discriminate|].
+  destruct (Z.of_nat (length bs) - 4 =? symsize ui); [inversion I; subst; cbn in S1; discriminate|].
+  destruct (rd32 r1) as [[uj r2]|] eqn:E2; [|discriminate].
+  inversion I; subst li rest. clear I.
+  apply rd32_some_length in E1, E2.
+  lia.
+Qed.
+
+(* a file too short for its header is refused for every target kind *)
+Theorem bin_short_header_rejected k bs : (length bs < 4)%nat -> decode_as k bs = Err EHeader.
+Proof. intros H. unfold decode_as, info. rewrite rd32_short by assumption. reflexivity. Qed.
